@@ -118,10 +118,29 @@ Lemma pin_lexer_token_types : lexer_token_types = pinned_lexer_token_types.
 Proof. reflexivity. Qed.
 
 Definition pinned_lexer_unescape_map : list (N * N) :=
-  [(34, 34); (92, 92); (110, 10); (116, 9)].
+  [(34, 34);
+   (92, 92);
+   (110, 10);
+   (116, 9)].
 Lemma pin_lexer_unescape_map : lexer_unescape_map = pinned_lexer_unescape_map.
 Proof. reflexivity. Qed.
 
-Definition pinned_lexer_unescape_pattern : list N := [92; 92; 40; 91; 34; 92; 92; 110; 116; 93; 41]%N.
+Definition pinned_lexer_unescape_pattern : list N :=
+  [92; 92; 40; 91; 34; 92; 92; 110; 116; 93; 41]%N.
 Lemma pin_lexer_unescape_pattern : lexer_unescape_pattern = pinned_lexer_unescape_pattern.
+Proof. reflexivity. Qed.
+
+Definition pinned_lexer_sentinel_guard : list N :=
+  [112; 111; 115; 32; 33; 61; 32; 115; 101; 110; 116; 105; 110; 101; 108; 95; 112; 111; 115]%N.
+Lemma pin_lexer_sentinel_guard : lexer_sentinel_guard = pinned_lexer_sentinel_guard.
+Proof. reflexivity. Qed.
+
+Definition pinned_lexer_sentinel_pos : list N :=
+  [95; 76; 69; 65; 68; 73; 78; 71; 95; 66; 76; 65; 78; 75; 95; 76; 73; 78; 69; 83; 46; 109; 97; 116; 99; 104; 40; 99; 111; 110; 116; 101; 110; 116; 41; 46; 101; 110; 100; 40; 41]%N.
+Lemma pin_lexer_sentinel_pos : lexer_sentinel_pos = pinned_lexer_sentinel_pos.
+Proof. reflexivity. Qed.
+
+Definition pinned_lexer_leading_blank_pattern : list N :=
+  [40; 63; 58; 32; 42; 92; 110; 41; 42]%N.
+Lemma pin_lexer_leading_blank_pattern : lexer_leading_blank_pattern = pinned_lexer_leading_blank_pattern.
 Proof. reflexivity. Qed.
